@@ -718,4 +718,32 @@ void h_substr()
   delete[] P.foreign;
 }
 
+
+// -------------------------------------------------------------- compare(const String&): memory safety for every pair
+// of strings, including attached memory without terminator (the conversions must repair that
+// before the scan) -- loop contract: both cursors stay inside [str, str + len]
+bool str_compare_post(const String* a, const String* o, int r)
+{
+  (void)r;
+  return wf_String(a) && wf_String(o) && a->data->str[a->data->len] == 0 && o->data->str[o->data->len] == 0;
+}
+void h_compare_str()
+{
+  NV_STRING_STATICS();
+  NV_PRE_INPUTS(P);
+  NV_INPUT(usize, okind); NV_INPUT(usize, ocap); NV_INPUT(usize, olen);
+  NV_ASSUME(okind <= 2 && (okind != 0 || olen == 0) && ocap <= NV_MAXSZ && olen <= NV_MAXSZ && (okind != 2 || olen <= ocap));
+  NV_ASSUME(!share && extra == 0);
+  String a, b, o, dummy;
+  build(a, b, P);
+  Pre Q; Q.kind = okind; Q.cap = ocap; Q.len = olen; Q.share = false; Q.extra = 0; Q.foreign = 0;
+  build(o, dummy, Q);
+  NV_PRE(wf_String(&a) && wf_String(&o));
+  int r = a.compare(o);
+  NV_POST("compare(const String&): both operands terminated at length(), scan stays inside them", str_compare_post(&a, &o, r));
+  if(kind == 1 && okind == 1) { NV_REACH("compare_str.attached"); }
+  teardown(a, b, P); teardown(o, dummy, Q);
+  delete[] P.foreign; delete[] Q.foreign;
+}
+
 } // extern "C"
